@@ -34,7 +34,10 @@ pub const REQUIRED: &[&str] = &[
 pub fn check(c: &Case, obs: &mut Obs) {
     obs.class_if(c.f32, "f32");
     obs.class_if(!c.f32, "f64");
-    let c = &crate::util::shape_variant(c, obs);
+    // PLS / PCA / ICA / whitener decompositions get at least two rows: on a single sample the covariance is 0/0 and e.g.
+    // `Whitener::zca().fit` never returns (a hang cannot be skipped); the scalers and kernels also see a single row
+    let min_rows = if matches!(c.kind, 0 | 2 | 3 | 6) { 2 } else { 1 };
+    let c = &crate::util::shape_variant(c, obs, min_rows);
     if c.x.is_empty() {
         return obs.skip("no_rows");
     }
